@@ -93,6 +93,9 @@ def check(ctx):
     W1 = ctx.rule("W1", "wire shape of newOrder (RFC 8555 7.4: identifiers[{type,value}], optional notBefore/notAfter) as written by the derived Serialize impls")
     from .wire_shape import check_shapes
     check_shapes(ctx, W1, ["acmed::acme_proto::structs::order::NewOrder", "acmed::acme_proto::structs::order::Identifier"])
+    # "signed with the configured digest": the csr_digest / key_type names of the configuration select the like-named variants (C15.K4)
+    from . import crypto_tables as _ct
+    ctx.shared("C15", lambda c_: _ct.parse_tables(c_, c_.rule("K4", "[shared with C15] FromStr of digest / key-type / algorithm names, every documented spelling")))
     b = prog.async_body(RC)
     R1 = ctx.rule("R1", "newOrder lists every configured identifier, in order, each copied by from_generic")
     nos = b.calls_to("acmed::acme_proto::structs::order::NewOrder::new")
